@@ -211,4 +211,18 @@ def renderSection (schema : Bytes) (recs : List Bytes) : Bytes :=
 def renderTableFile (schema : Bytes) (recs : List Bytes) : Bytes :=
   strBytes dumpVersion ++ renderSection schema recs
 
+/-! ### index order (tables with several indexes) -/
+
+/-- the order in which `Schema.DumpString(firstIdx)` prints the indexes and in which
+`buildIndexes(…, sortedBy)` builds them: the chosen one first, the others in schema order -/
+def indexOrder (n first : Nat) : List Nat := first :: (List.range n).filter (· != first)
+
+/-- `ov[i] = index.OverlayFor(bt)`: every built index is stored at ITS position -/
+def placeByIndex {α} (n : Nat) (order : List Nat) (built : Nat → α) : List (Option α) :=
+  (List.range n).map fun i => if order.contains i then some (built i) else none
+
+/-- the defective variant `ov = append(ov, …)`: stored in the order built -/
+def placeByAppend {α} (order : List Nat) (built : Nat → α) : List (Option α) :=
+  order.map fun i => some (built i)
+
 end Gsu.Dump
